@@ -219,9 +219,23 @@ func (in *interp) initPackage(pkg *ssa.Package) {
 	if in.cfg != nil && in.cfg.skipInit[pkg.Pkg.Path()] {
 		return
 	}
+	switch pkg.Pkg.Path() {
+	case "runtime", "syscall", "internal/poll", "internal/cpu", "internal/godebug", "os/signal", "net", "reflect", "internal/reflectlite", "unsafe":
+		return
+	}
 	saved := in.inInit
 	in.inInit++
-	defer func() { in.inInit = saved }()
+	defer func() {
+		in.inInit = saved
+		if r := recover(); r != nil {
+			if pa, ok := r.(pathAbort); ok && (pa.kind == "engine" || pa.kind == "unsupported") {
+				// an initialiser the engine cannot execute: the remaining globals stay zero
+				in.res.Events["init-incomplete: "+pkg.Pkg.Path()+": "+pa.msg]++
+				return
+			}
+			panic(r)
+		}
+	}()
 	in.callSSA(nil, token.NoPos, initFn, nil, nil)
 }
 
@@ -375,7 +389,11 @@ func (in *interp) visitInstr(fr *frame, instr ssa.Instruction) (ret bool) {
 
 	case *ssa.Call:
 		fn, args := in.prepareCall(fr, &instr.Call)
-		fr.set(instr, in.call(fr, instr.Pos(), fn, args))
+		if in.inInit > 0 {
+			fr.set(instr, in.initCall(fr, instr, fn, args))
+		} else {
+			fr.set(instr, in.call(fr, instr.Pos(), fn, args))
+		}
 		fr.curInstr = instr
 
 	case *ssa.ChangeInterface:
@@ -1014,6 +1032,9 @@ func (in *interp) callSSA(caller *frame, callpos token.Pos, fn *ssa.Function, ar
 	if in.trace {
 		fmt.Fprintf(in.traceOut, "%*s-> %s\n", fr.depth, "", fi.name)
 	}
+	if caller != nil && in.inInit > 0 && fn.Synthetic == "package initializer" {
+		return nil // imported packages are initialised lazily, on first touch of one of their globals
+	}
 	if fi.api != "" {
 		if v, ok := in.harnessAPI(fr, fi.api, args); ok {
 			return v
@@ -1055,6 +1076,36 @@ func (in *interp) callSSA(caller *frame, callpos token.Pos, fn *ssa.Function, ar
 		in.runFrame(fr)
 	}
 	return fr.result
+}
+
+// initCall: inside a package initialiser a call the engine cannot execute yields
+// an opaque result instead of ending the path (the rest of the initialiser still runs).
+func (in *interp) initCall(fr *frame, instr *ssa.Call, fn value, args []value) (res value) {
+	depth := in.inInit
+	defer func() {
+		if r := recover(); r != nil {
+			pa, ok := r.(pathAbort)
+			if !ok || (pa.kind != "engine" && pa.kind != "unsupported") {
+				panic(r)
+			}
+			in.inInit = depth
+			in.res.Events["init-call-opaque: "+pa.msg]++
+			n := instr.Call.Signature().Results().Len()
+			switch n {
+			case 0:
+				res = nil
+			case 1:
+				res = opaque{pa.msg}
+			default:
+				t := make(tuple, n)
+				for i := range t {
+					t[i] = opaque{pa.msg}
+				}
+				res = t
+			}
+		}
+	}()
+	return in.call(fr, instr.Pos(), fn, args)
 }
 
 // opaqueResult builds an opaque value shaped like fn's result.
